@@ -178,7 +178,7 @@ class C08(Prop):
         "fetch_from_msa_modes_agree", "strdealign_spec", "std_gapchars_ok", "get_from_msa_ss_buffer_safe",
         "sq_grow_covers", "sq_growto_covers", "sq_object_grow_keeps_invariant", "sq_object_digitize_textize", "sq_revcomp_markup",
         "sq_object_copy_spec", "std_case_insensitive", "custom_history_case_insensitive", "custom_history_wfdegen",
-        "sq_checksum_detects_substitution", "sq_checksum_steps_injective", "msa_guess_both_forms", "msa_mixed_probe_regenerated", "createdsq_allocation_dsqlen", "sq_object_append_spec",
+        "sq_checksum_detects_substitution", "sq_checksum_steps_injective", "msa_guess_both_forms", "msa_mixed_probe_regenerated", "createdsq_allocation_dsqlen", "sq_object_append_spec", "sq_object_roundtrip",
     )]
     claimed = True
     technique = ("Lean 4 proof: table theorems closed by `decide` over the whole regenerated tables (vs a hand-written IUPAC statement), "
@@ -201,7 +201,15 @@ class C08(Prop):
                   "esl_sq_FetchFromMSA: text-mode dealigning (esl_strdealign, \"-_.~\") and digital dealigning (XDealign/CDealign) keep the same columns, so fetching commutes with digitising (sequence, n, SS line); Match with the uniform background = |S(x) cap S(y)|/(|S(x)||S(y)|); "
                   "no history of esl_sq_GetFromMSA calls on a reused ESL_SQ copies past sq->ss; "
                   "the character-class macros esl_abc_{C,X}Is* on all 256 chars/codes of the 5 alphabets and 78 GuessAlphabet probe compositions are regenerated from the tree and closed by decide. "
-                  "The hand model is tied to the tree by an exact differential run (all single bytes, random strings up to 10^4, custom alphabets).")
+                  "Round 6: esl_sq_Grow for ANY n (the keep-doubling loop): nsafe >= 1, new allocation = n(+1)+nsafe = old size doubled k times, never shrinks; esl_sq_GrowTo; "
+                  "an ESL_SQ as an object with ss + xr[] markup and per-buffer allocation sizes: Digitize / Textize / Copy (4 mode combinations) / appending a residue keep every markup "
+                  "memmove/strcpy/store inside its allocation and keep the markup strings, start, end; ReverseComplement drops ss and ALL xr (nxr = 0) and swaps start/end, eslEINCOMPAT leaves "
+                  "the object untouched; both case entries of all 26 letters are equal in the 5 regenerated built-in tables; for custom alphabets case-insensitivity holds after an accepted "
+                  "SetCaseInsensitive for every earlier history and survives every later call that names no letter (a later letter synonym breaks it: proved); ndegen = |set| after every clean "
+                  "history incl. rejected calls; esl_sq_Checksum (exact uint32 model): every step is a bijection of the state and injective in the residue, so any single-residue substitution "
+                  "changes the checksum (text and digital); CreateDsq's strlen+2 allocation suffices and dsqlen = number of non-ignored characters; esl_msa_GuessAlphabet in its documented and its "
+                  "fall-through form, the form the tree has being regenerated. "
+                  "The hand model is tied to the tree by an exact differential run (all single bytes, random strings up to 10^4, custom alphabets, ESL_SQ objects at the allocation boundaries).")
     level_note = ("Trusted: Lean kernel + propext/Classical.choice/Quot.sound; table dumper; fidelity of the hand model is checked (not proved) by the "
                   "differential run; score/count averaging is compared bit-exactly (binary64/binary32) and monitored against the exact mean; "
                   "esl_abc_GuessAlphabet: theorems are about the integer form of the 2% tests (50*d <= n), which the driver runs next to the "
@@ -219,15 +227,16 @@ class C08(Prop):
     assumptions = ["custom alphabets: symbols are non-NUL 7-bit characters (the C constructor does not check; it would write outside inmap[])",
                    "digital sequences handed to Textize/revcomp/dealign contain valid codes (< Kp); other codes are an out-of-bounds read in C = fault in the model",
                    "allocation never fails (eslEMEM paths not modelled)",
-                   "esl_sq_Copy: the sequence and n of the four text/digital combinations are modelled (names, ss/xr markup, coordinates and offsets are not)",
+                   "esl_sq_Copy: sequence, n, ss/xr markup, salloc, start/end of the four text/digital combinations into a FRESH destination (names, offsets, a reused destination with old markup are not)",
                    "esl_sq_FetchFromMSA / esl_sq_GetFromMSA: one-row alignments, sequence + SS line + the allocation size of sq->ss across two calls on a reused object (no #=GR markup, names, accessions)",
                    "esl_msa_GuessAlphabet: text-mode alignments (a digital alignment answers msa->abc->type: not modelled)",
-                   "esl_sq_Digitize/Textize/ReverseComplement on an ESL_SQ: sequence, ss line and start/end; extra residue markup (xr) not modelled",
+                   "esl_sq_Digitize/Textize/ReverseComplement/Copy/Grow/GrowTo on an ESL_SQ: sequence, ss line, extra residue markup (xr, all entries non-NULL), salloc, start/end (names, offsets, C/W/L not modelled)",
                    "esl_abc_Match: comparisons involving gap/nonresidue/missing/invalid codes return 0.0 (repaired in the tree: the guard tested x twice)",
                    "esl_alphabet_SetEquiv(a, sym, '\\0') is outside the generator (strchr finds the terminating NUL: returns eslOK and maps sym to the invalid code Kp)",
                    "esl_abc_dsqcat with an explicit length treats a NUL byte as inmap[0] = 'unknown' with eslOK (documented: inmap[0] is special); mirrored, not judged"]
     rule = ("corpus = every single byte 0..255 through digitize/dsqcat/validateseq/text CountResidues/sq+msa GuessAlphabet on each built-in alphabet, "
-            "exact .5 ties of the integer scores on every code, every TextizeN window of a 4-residue sequence, the 10000-letter cutoffs; "
+            "exact .5 ties of the integer scores on every code, every TextizeN window of a 4-residue sequence, the 10000-letter cutoffs, ESL_SQ objects with ss+xr markup of "
+            "0/1/2/254..257/511/512 residues x 4 constructions x 15 scripts (Digitize/Textize/ReverseComplement/Grow/GrowTo/append/Copy) on each built-in alphabet; "
             "cases = one alphabet (3 standard + coins/dice + random custom alphabets) and a history of conversions on strings of "
             "valid/synonym/lower-case/ignored/invalid/8-bit characters; non-trivial = a case with at least one successful digitisation "
             "of >= 1 residue followed by another operation; distinct by output trace")
